@@ -62,6 +62,9 @@ func (o Op) String() string {
 		}
 		return fmt.Sprintf("p%d u%d=ParseRef(%q,%q)", o.P, o.D, string(o.B), string(o.A))
 	case "resolve":
+		if o.V == "peerhref" {
+			return fmt.Sprintf("p%d u%d=resolve[way%d](u%d,<serialization of u%d>+%q)", o.P, o.D, o.W, o.H, o.S, string(o.A))
+		}
 		return fmt.Sprintf("p%d u%d=resolve[way%d](u%d,%q)", o.P, o.D, o.W, o.H, string(o.A))
 	case "clone":
 		return fmt.Sprintf("p%d u%d=u%d.Clone()", o.P, o.D, o.H)
